@@ -29,7 +29,7 @@ type req struct {
 	Entry   string      `json:"entry"`
 	Vcpus   int         `json:"vcpus"`
 	Product int32       `json:"product"`
-	Mode    int         `json:"mode"` // 0 default, 1 measure-all, 2 measure-all+early-accept
+	Mode    int         `json:"mode"` // TDX: 0 default, 1 measure-all, 2 measure-all+no-unaccepted, 3 no-unaccepted only
 	Banks   [][2]uint64 `json:"banks,omitempty"`
 	Shapes  []string    `json:"shapes,omitempty"`
 	Early   bool        `json:"early,omitempty"`
@@ -58,14 +58,15 @@ func banksOf(r req) []ovmf.GuestPhysicalRegion {
 	return out
 }
 
+// errClass is a coverage label only (how deep the input got); it never influences a verdict.
 func errClass(err error) string {
 	if err == nil {
 		return "accepted"
 	}
 	s := err.Error()
 	for _, k := range []string{"firmware is too small", "GUIDed table", "without the GUIDed table", "duplicate GUIDs", "no matching block", "mismatch with GUID block size", "signature", "mismatch between SEV", "not large enough", "expected only 1 section",
-		"not a positive multiple", "overlaps", "no proper pre-validated", "no secret page", "no CPUID page", "unknown OVMF page", "aligned", "multiple of", "larger than the product", "TDX metadata offset GUID block not found", "unexpected TDX metadata offset", "GUID mismatch",
-		"data too small", "version mismatch", "length mismatch", "invalid image offset", "memory size", "multiple TD HOB", "unsupported metadata section", "doesn't contain section", "doesn't add up", "overlapping with other section", "overflowing GPR", "does not match source data", "not page-aligned", "not divisible", "vcpus at launch", "could not parse", "unsupported machine"} {
+		"not a positive multiple", "overlaps", "no proper pre-validated", "no secret page", "no CPUID page", "unknown OVMF page", "does not match source data", "not page-aligned", "not divisible", "aligned", "multiple of", "larger than the product", "TDX metadata offset GUID block not found", "unexpected TDX metadata offset", "GUID mismatch",
+		"data too small", "version mismatch", "length mismatch", "invalid image offset", "memory size", "multiple TD HOB", "unsupported metadata section", "doesn't contain section", "doesn't add up", "overlapping with other section", "overflowing GPR", "vcpus at launch", "could not parse", "unsupported machine"} {
 		if strings.Contains(s, k) {
 			return "rejected:" + k
 		}
@@ -84,13 +85,16 @@ func init() {
 		case "sev.UnsignedSnp":
 			_, err = sev.UnsignedSnp(img, &sev.SnpEndorsementRequest{LaunchVmsas: uint32(r.Vcpus), Product: product})
 		case "tdx.MRTD":
-			_, err = tdx.MRTD(&tdx.LaunchOptions{GuestRAMBanks: banksOf(r), MeasureAllRegions: r.Mode >= 1, DisableUnacceptedMemory: r.Mode == 2}, img)
+			_, err = tdx.MRTD(&tdx.LaunchOptions{GuestRAMBanks: banksOf(r), MeasureAllRegions: r.Mode == 1 || r.Mode == 2, DisableUnacceptedMemory: r.Mode >= 2}, img)
 		case "tdx.UnsignedTDX":
 			_, err = tdx.UnsignedTDX(img, &tdx.EndorsementRequest{MachineShapes: r.Shapes, IncludeEarlyAccept: r.Early})
 		case "ovmf.SevData":
-			d := &ovmf.SevData{SevEs: true, SevSnp: true}
+			// Mode selects the flag combination: the reset block alone, or reset block + SNP metadata.
+			d := &ovmf.SevData{SevEs: true, SevSnp: r.Mode != 3}
 			if err = d.ExtractFromFirmware(img); err == nil {
-				_, err = d.SnpMetadataSections()
+				if r.Mode != 3 {
+					_, err = d.SnpMetadataSections()
+				}
 				if err == nil {
 					_, err = d.SevEsResetBlock()
 				}
@@ -118,40 +122,60 @@ func TestMain(m *testing.M) {
 	code := m.Run()
 	isolate.Shutdown()
 	ev.Note("worker restarts: %d; verdicts (death / watchdog) that did not reproduce on a fresh worker and were therefore not counted: %d", isolate.Restarts, isolate.Flaky)
+	ev.Note("largest allocation per measurement run net of the VMSA, SNP-page and declared-private-size terms, over all judged cases: %d bytes at %s; the budget for it is %d + %d*len(image)", maxUnexplained, maxUnexplainedAt, baseBudget, perByte)
 	ev.Flush()
 	os.Exit(code)
 }
 
 func checks(n int) { flag.Set("rapid.checks", strconv.Itoa(n)) }
 
-var entries = []string{"sev.LaunchDigest", "sev.LaunchDigest", "sev.UnsignedSnp", "tdx.MRTD", "tdx.MRTD", "tdx.UnsignedTDX", "ovmf.SevData", "ovmf.GuidMap", "ovmf.Regions"}
+var entries = []string{"sev.LaunchDigest", "sev.LaunchDigest", "sev.UnsignedSnp", "tdx.MRTD", "tdx.MRTD", "tdx.MRTD", "tdx.UnsignedTDX", "ovmf.SevData", "ovmf.GuidMap", "ovmf.Regions"}
 
-var gceCounts = []int{1, 2, 4, 8, 16, 24, 32, 48, 64, 80, 96, 112, 128, 224, 240}
+func techOf(entry string) string {
+	switch {
+	case strings.HasPrefix(entry, "sev.") || entry == "ovmf.SevData":
+		return "sev"
+	case strings.HasPrefix(entry, "tdx.") || entry == "ovmf.Regions":
+		return "tdx"
+	}
+	return "table"
+}
 
+// vmsaTotal is the number of VMSA pages the request makes the implementation build (all counts the
+// repository endorses when the request leaves the count open).
 func vmsaTotal(entry string, vcpus int) int {
 	if entry == "sev.UnsignedSnp" && vcpus == 0 {
 		s := 0
-		for _, c := range gceCounts {
-			s += c
+		for _, c := range sev.AllSupportedVmsaCounts {
+			s += int(c)
 		}
 		return s
 	}
-	if vcpus < 0 {
+	if vcpus < 0 || !strings.HasPrefix(entry, "sev.") {
 		return 0
 	}
 	return vcpus
 }
 
+// digestRuns is how many launch digests the request computes over the image.
+func digestRuns(r req) uint64 {
+	if r.Entry == "sev.UnsignedSnp" && r.Vcpus == 0 {
+		return uint64(len(sev.AllSupportedVmsaCounts))
+	}
+	return 1
+}
+
 func genReq(t *rapid.T) req {
 	r := req{Entry: rapid.SampledFrom(entries).Draw(t, "entry")}
-	r.Vcpus = rapid.SampledFrom([]int{-1, 0, 1, 1, 2, 2, 8, 240, 4096}).Draw(t, "vcpus")
+	// the counts below 1 are refused before the image is looked at: kept, but rare
+	r.Vcpus = rapid.SampledFrom([]int{-1, 0, 1, 1, 1, 1, 2, 2, 2, 8, 8, 240, 4096}).Draw(t, "vcpus")
 	if r.Entry == "sev.UnsignedSnp" && r.Vcpus < 0 {
 		// the request field is unsigned: -1 would ask for 2^32-1 VMSAs, which is a (legitimately
 		// expensive) launch option, not a hostile image
 		r.Vcpus = 0
 	}
 	r.Product = rapid.SampledFrom([]int32{0, 1, 1, 2, 2, 7}).Draw(t, "product") // 0 unknown, 1 Milan, 2 Genoa
-	r.Mode = rapid.IntRange(0, 2).Draw(t, "mode")
+	r.Mode = rapid.SampledFrom([]int{0, 0, 1, 2, 3}).Draw(t, "mode")
 	switch rapid.IntRange(0, 4).Draw(t, "bankKind") {
 	case 0:
 	case 1:
@@ -173,18 +197,37 @@ func genReq(t *rapid.T) req {
 	return r
 }
 
+// Budget. Bytes requested from the allocator must stay below
+//
+//	runs*(baseBudget + perByte*len(image)) + perVmsa*VMSAs + perSnpPage*validated SNP pages*digests
+//	  + matFactor*(bytes of TD-HOB/TempMem memory the run materialises) + (TempMem bytes walked in default mode)/16
+//
+// where the last two terms exist only because of the recorded finding (see tdxCost). Measured over
+// 25 000 cases on the unchanged tree: the largest fixed cost is about 185 KiB per run (parsing the
+// VMSA template in sev.LaunchDigest), the largest cost per image byte about 5.4 (section records read
+// out of the image body); baseBudget and perByte are those figures times four, rounded up. The run's
+// own maximum is reported in the evidence notes.
 const (
-	baseBudget  = 8 << 20
-	perByte     = 64
+	baseBudget  = 1 << 20
+	perByte     = 32
 	perVmsa     = 8 << 10
 	perSnpPage  = 1 << 10
 	maxSnpPages = 1<<20 + 16
+	matFactor   = 4
+	// cpuBase is the CPU watchdog of the worker; snpPageNs / loop and materialise rates convert the work
+	// an image legitimately declares into CPU time with a generous margin.
+	cpuBaseMs = 20000
+)
+
+var (
+	maxUnexplained   uint64
+	maxUnexplainedAt string
 )
 
 // snpDeclaredPages returns the number of pages the validated SNP metadata of img declares (0 when
 // the metadata does not validate). Hashing each declared page is inherent to the launch digest, so
-// the allocator churn of that loop (a PAGE_INFO buffer per page) is excused; the total is bounded
-// by the 32-bit address space.
+// the allocator churn and the CPU time of that loop are excused; the total is bounded by the 32-bit
+// address space.
 func snpDeclaredPages(img []byte) (pages uint64) {
 	defer func() {
 		if recover() != nil {
@@ -208,93 +251,190 @@ func snpDeclaredPages(img []byte) (pages uint64) {
 	return pages
 }
 
-// privateSizeCap: TD-HOB / TempMem memory sizes above this are the recorded finding class
-// C08/tdx/*-size-unbounded (the implementation allocates about three times the TD-HOB size).
-const privateSizeCap = 1 << 20
+func satAdd(a, b uint64) uint64 {
+	if a+b < a {
+		return ^uint64(0)
+	}
+	return a + b
+}
 
-// tdxBigSection says whether the image's TDVF metadata - as a tolerant harness-side parse of the image
-// itself sees it, which may differ from what the generator planted when a hostile count makes the
-// parser read section records out of the image body - declares a TD-HOB/TempMem memory size beyond
-// the cap, and how large the largest one is.
-func tdxBigSection(img []byte) (kind string, largest uint64) {
+func satMul(a, b uint64) uint64 {
+	if a != 0 && b > ^uint64(0)/a {
+		return ^uint64(0)
+	}
+	return a * b
+}
+
+// tdxCost describes what the recorded finding (TD-HOB / TempMem MemorySize used unchecked) explains
+// for one request, from a tolerant harness-side parse of the image itself (which may differ from what
+// the generator planted when a hostile count makes the parser read records out of the image body):
+// the TD-HOB buffer is built in every mode, TempMem sections are zero-filled and hashed only by the
+// measure-all parsers, and the default measurement walks a TempMem section in 256-byte steps without
+// touching memory. Nothing else is explained by it: an allocation in default mode for a TempMem
+// section, an allocation far above the declared sizes, or a loop that does not end for sizes the
+// walk finishes in seconds, are different root causes and keep their own keys.
+type tdxCost struct {
+	hob, temp            uint64 // declared bytes (saturating sums)
+	runsDefault, runsAll uint64
+	perRunMat            uint64 // bytes materialised by the most expensive single measurement
+	materialised         uint64 // over all runs
+	loopDefault          uint64 // TempMem bytes walked by default-mode runs
+	explainedAlloc       uint64 // matFactor x materialised bytes + the page-record churn of the default walk (128 B per 4 KiB, doubled)
+	kind                 string // which section type dominates ("td-hob"/"tempmem"), "" when none declared
+}
+
+func (c tdxCost) runs() uint64 { return c.runsDefault + c.runsAll }
+
+func tdxRuns(r req) (def, all uint64) {
+	switch r.Entry {
+	case "tdx.MRTD", "ovmf.Regions":
+		if r.Mode == 0 {
+			return 1, 0
+		}
+		return 0, 1
+	case "tdx.UnsignedTDX":
+		per := uint64(1)
+		if r.Early {
+			per = 2
+		}
+		return 1, per * uint64(len(r.Shapes))
+	}
+	return 0, 0
+}
+
+func costOf(r req, img []byte) tdxCost {
+	var c tdxCost
+	c.runsDefault, c.runsAll = tdxRuns(r)
+	if c.runs() == 0 {
+		return c
+	}
 	secs, ok := fwgen.ParseTdxSections(img)
 	if !ok {
-		return "", 0
+		return c
 	}
 	for _, s := range secs {
-		if (s.Type == fwgen.TdxTDHOB || s.Type == fwgen.TdxTempMem) && s.MemorySize > privateSizeCap && s.MemorySize > largest {
-			largest = s.MemorySize
-			kind = "tempmem"
-			if s.Type == fwgen.TdxTDHOB {
-				kind = "td-hob"
-			}
+		switch s.Type {
+		case fwgen.TdxTDHOB:
+			c.hob = satAdd(c.hob, s.MemorySize)
+		case fwgen.TdxTempMem:
+			c.temp = satAdd(c.temp, s.MemorySize)
 		}
 	}
-	return kind, largest
+	c.perRunMat = c.hob
+	if c.runsAll > 0 {
+		c.perRunMat = satAdd(c.hob, c.temp)
+	}
+	c.materialised = satAdd(satMul(c.runs(), c.hob), satMul(c.runsAll, c.temp))
+	c.loopDefault = satMul(c.runsDefault, c.temp)
+	hobPart := satMul(matFactor, satMul(c.runs(), c.hob))
+	tempPart := satAdd(satMul(matFactor, satMul(c.runsAll, c.temp)), c.loopDefault>>4)
+	c.explainedAlloc = satAdd(hobPart, tempPart)
+	switch {
+	case c.hob == 0 && c.temp == 0:
+	case tempPart > hobPart:
+		c.kind = "tempmem"
+	default:
+		c.kind = "td-hob"
+	}
+	return c
+}
+
+// expectedMs is the CPU time (with margin) the declared private sizes explain: 4 s per 4 GiB walked
+// in default mode (measured: about 1.5 s), 1 s per 64 MiB materialised (zero-fill, copy and SHA-384:
+// about 0.3 s).
+func (c tdxCost) expectedMs() uint64 {
+	return satAdd(c.loopDefault>>20, c.materialised>>16)
+}
+
+// Sizes beyond these are not executed outside VERIF_C08_UNBOUNDED thorough runs: they are the recorded
+// finding's own territory (each case ends in an out-of-memory death or a 40 s watchdog expiry).
+const (
+	maxRunMat  = 192 << 20
+	maxRunLoop = 1<<33 + 1<<20
+)
+
+func (c tdxCost) inKnownTerritory() bool {
+	return c.perRunMat > maxRunMat || c.temp > maxRunLoop && c.runsDefault > 0
 }
 
 // verdict applies the totality / resource oracle. It returns false when the case must stop.
-func verdict(t ev.TB, r req, img []byte, res isolate.Result, bigKind string, what string) bool {
-	isTdx := strings.HasPrefix(r.Entry, "tdx.") || r.Entry == "ovmf.Regions"
-	big := bigKind != ""
-	sizeKey := func(kind string) string {
-		if isTdx && big {
-			return "C08/tdx/" + bigKind + "-size-unbounded/" + kind
-		}
-		return ""
+func verdict(t ev.TB, name string, r req, img []byte, res isolate.Result, what string) bool {
+	c := costOf(r, img)
+	known := func(kind string) string { return "C08/tdx/" + c.kind + "-size-unbounded/" + kind }
+	runs := c.runs()
+	if runs == 0 {
+		runs = 1
 	}
+	var snpPages uint64
+	if strings.HasPrefix(r.Entry, "sev.") {
+		snpPages = snpDeclaredPages(img) * digestRuns(r)
+	}
+	// 4 us per page-info hash (measured: below 1 us)
+	snpMs := snpPages / 250
 	switch res.Outcome {
 	case "infra":
 		ev.Note("inconclusive case (not judged): %s", res.Msg)
 		return true
 	case "panic":
 		key := "C08/panic/" + res.Frame
-		if k := sizeKey("panic"); k != "" {
-			key = k
+		// the recorded finding: a size that cannot be a buffer length (Grow / make refuse it)
+		if c.kind != "" && c.perRunMat >= 1<<31 && strings.Contains(res.Frame, "tdxFwParser") {
+			key = known("panic")
 		}
 		return ev.Violation(t, key, "%s panicked: %s (frame %s) on %s", r.Entry, res.Msg, res.Frame, what)
 	case "died":
 		key := "C08/worker-died/" + r.Entry
-		if k := sizeKey("out-of-memory"); k != "" {
-			key = k
+		if c.kind != "" && satMul(c.perRunMat, 3) >= 1<<30 {
+			key = known("out-of-memory")
 		}
 		return ev.Violation(t, key, "%s killed the process: %s on %s", r.Entry, res.Msg, what)
 	case "timeout":
+		if snpMs >= cpuBaseMs {
+			ev.Class(name, "inconclusive/watchdog-on-declared-snp-pages")
+			ev.Note("inconclusive: watchdog expired while %s hashed %d validated SNP pages", r.Entry, snpPages)
+			return true
+		}
 		key := "C08/cpu-unbounded/" + r.Entry
-		if k := sizeKey("cpu"); k != "" {
-			key = k
+		if c.kind != "" && c.expectedMs() >= cpuBaseMs {
+			key = known("cpu")
 		}
-		return ev.Violation(t, key, "%s did not finish: %s on %s", r.Entry, res.Msg, what)
+		return ev.Violation(t, key, "%s did not finish: %s on %s (declared private sizes explain %d ms)", r.Entry, res.Msg, what, c.expectedMs())
 	}
-	// tdx.UnsignedTDX measures the image once per requested shape (twice with early accept) plus once
-	// for the default row, so its allowance is per measurement.
-	runs := uint64(1)
-	if r.Entry == "tdx.UnsignedTDX" {
-		runs = uint64(2*len(r.Shapes) + 1)
+	sized := runs*perByte*uint64(len(img)) + perVmsa*uint64(vmsaTotal(r.Entry, r.Vcpus)) + perSnpPage*snpPages
+	fixed := runs * baseBudget
+	mat := c.explainedAlloc
+	// bookkeeping for the evidence: the fixed cost per measurement run on the tree under test (net of the
+	// VMSA, SNP-page and declared-private-size terms, image bytes not deducted)
+	net := perVmsa*uint64(vmsaTotal(r.Entry, r.Vcpus)) + perSnpPage*snpPages
+	if c.kind != "" {
+		net = satAdd(net, mat)
 	}
-	budget := runs*(uint64(baseBudget)+perByte*uint64(len(img))) + perVmsa*uint64(vmsaTotal(r.Entry, r.Vcpus))
-	if strings.HasPrefix(r.Entry, "sev.") {
-		mult := uint64(1)
-		if r.Entry == "sev.UnsignedSnp" && r.Vcpus == 0 {
-			mult = uint64(len(gceCounts))
+	if res.Alloc > net && res.Alloc <= sized+fixed {
+		if u := (res.Alloc - net) / runs; u > maxUnexplained {
+			maxUnexplained, maxUnexplainedAt = u, fmt.Sprintf("%s (%d-byte image, outcome %s)", r.Entry, len(img), res.Class)
 		}
-		budget += perSnpPage * snpDeclaredPages(img) * mult
 	}
-	if res.Alloc > budget {
+	if res.Alloc > sized+fixed {
 		key := "C08/alloc-unbounded/" + r.Entry
-		if k := sizeKey("alloc"); k != "" {
-			key = k
+		if c.kind != "" && res.Alloc <= satAdd(sized+fixed, mat) {
+			key = known("alloc")
 		}
-		return ev.Violation(t, key, "%s requested %d bytes from the allocator for a %d-byte image (budget %d) on %s; outcome %s %s", r.Entry, res.Alloc, len(img), budget, what, res.Outcome, res.Msg)
+		return ev.Violation(t, key, "%s requested %d bytes from the allocator for a %d-byte image (budget %d, plus %d explained by the declared TD-HOB/TempMem sizes in this mode) on %s; outcome %s %s", r.Entry, res.Alloc, len(img), sized+fixed, mat, what, res.Outcome, res.Msg)
 	}
-	if res.CPUms > 20000 {
+	if uint64(res.CPUms) > cpuBaseMs+snpMs+c.expectedMs() {
 		key := "C08/cpu-unbounded/" + r.Entry
-		if k := sizeKey("cpu"); k != "" {
-			key = k
-		}
 		return ev.Violation(t, key, "%s used %d ms of CPU for a %d-byte image on %s", r.Entry, res.CPUms, len(img), what)
 	}
 	return true
+}
+
+func allocLimit(r req, img []byte) uint64 {
+	c := costOf(r, img)
+	runs := c.runs()
+	if runs == 0 {
+		runs = 1
+	}
+	return runs*(baseBudget+perByte*uint64(len(img))) + perVmsa*uint64(vmsaTotal(r.Entry, r.Vcpus))
 }
 
 func tableFooterValid(img []byte) bool {
@@ -303,42 +443,72 @@ func tableFooterValid(img []byte) bool {
 	return err == nil
 }
 
-const hostileRule = "a generated valid image (1-8 pages, SEV+TDX metadata, fillers, drawn entry order) with 1-3 hostile values planted into raw fields {SEV/TDX metadata offset, header length/count/signature/version, count+length consistent modulo 2^32, any SEV/TDX section field, GUID-table footer size, entry size, duplicated entry, missing reset block, truncation from either end}, values from the overflow constant set {0,1,15,16,17,2^31+-1,2^32-16,2^32-1,2^32/12+-1,2^32/32+-1,2^40,2^52,2^63,2^64-1} or arbitrary; options: vcpus {-1,0,1,2,8,240,4096}, product {unknown,Milan,Genoa,7}, three TDX modes, RAM banks {none, GCE-like, zero-length, overlapping, hostile}; executed in an address-space-limited worker process; oracle: returns a value or an error (no panic, no process death, CPU < 20 s) and bytes requested from the allocator <= 8 MiB + 64*len(image) + 8 KiB*VMSAs + 1 KiB*validated SNP pages; non-trivial = the GUID-table footer is valid so metadata parsing is reached; distinct = (entry, planted mutation kinds, outcome class)"
+// readsImage says whether the request gets as far as looking at the image.
+func readsImage(r req) bool {
+	return !(r.Entry == "sev.LaunchDigest" && r.Vcpus < 1)
+}
+
+const hostileRule = "the request is drawn first (entry point; vcpus {-1,0,1,2,8,240,4096}; product {unknown,Milan,Genoa,7}; the four combinations of the two TDX mode flags; SevData with and without SNP; RAM banks {none, GCE-like, zero-length, overlapping, hostile}), then a generated valid image (1-8 pages, SEV+TDX metadata, fillers, drawn entry order) with 1-3 hostile plants, two thirds of them from the kinds the entry point reads. Kinds: absolute values from the overflow constant set {0,1,15,16,17,2^31+-1,2^32-16,2^32-1,2^32/12+-1,2^32/32+-1,2^40,2^52,2^63,2^64-1} or arbitrary in {SEV/TDX metadata offset, header length/count/signature/version, count+length consistent modulo 2^32, any SEV/TDX section field, GUID-table footer size, entry size, duplicated entry, missing reset block, truncation}; image-relative values {metadata offset, footer size, entry size, firmware-volume offset/size} = {image length, the real value, table start, table end} + d, |d| <= 33; metadata headers placed in the last 32 bytes; count/length within one record of the space the offset leaves; truncation at every structural boundary +-1; EXTEND attribute on TD-HOB/TempMem sections (and removed from volumes); TD-HOB/TempMem sizes across (64 KiB, 64 MiB], and TempMem sizes 4 GiB, 4 GiB+4 KiB for runs that only count pages. Executed in an address-space-limited worker; oracle: returns a value or an error (no panic, no process death, CPU < 20 s + 4 us per validated SNP page + what the declared private sizes explain) and bytes requested from the allocator <= runs*(1 MiB + 32*len(image)) + 8 KiB*VMSAs + 1 KiB*validated SNP pages, plus - recorded finding - 4x the TD-HOB/TempMem bytes the mode materialises; a TDX request is not executed when a single measurement would materialise more than 192 MiB or walk more than 8 GiB (recorded finding's territory; every other entry point still runs on that image). non-trivial = the GUID-table footer is valid, the request reads the image, and at least one plant concerns what the entry point reads; distinct = (entry, planted kinds, outcome class)"
 
 var (
 	excluded       int
 	unboundedSizes = os.Getenv("VERIF_C08_UNBOUNDED") == "1"
 )
 
+func unbounded() bool { return ev.Tier() == "thorough" && unboundedSizes }
+
+// defaultOnly says whether every measurement of the request runs the default (page-counting) path for
+// TempMem sections.
+func defaultOnly(r req) bool {
+	def, all := tdxRuns(r)
+	return def > 0 && all == 0
+}
+
+func hostileOptsFor(r req, maxPages int) hostOpts {
+	o := hostOpts{Options: fwgen.Options{MinPages: 1, MaxPages: maxPages, WantSev: true, WantTdx: true, MaxSevSections: 6, MaxTempMem: 3}, tech: techOf(r.Entry), excluded: &excluded}
+	if !unbounded() {
+		o.hobCap, o.tempCap = 64<<20, 64<<20
+		if defaultOnly(r) {
+			o.tempCap = 1 << 33
+		}
+	}
+	return o
+}
+
+func relevant(r req, muts []string) bool {
+	tech := techOf(r.Entry)
+	for _, m := range muts {
+		if i := strings.IndexByte(m, '/'); i > 0 {
+			m = m[:i]
+		}
+		k := kindTech(m)
+		if k == "table" || k == tech {
+			return true
+		}
+	}
+	return false
+}
+
 func TestHostileImages(t *testing.T) {
 	const name = "hostile/structured"
 	ev.Rule(name, hostileRule)
 	checks(ev.Scale(5000, 40000))
 	defer func() {
-		ev.Note("hostile TD-HOB/TempMem memory sizes above 64 MiB replaced by bounded ones in %d draws (recorded finding class C08/tdx/*-size-unbounded excluded by construction)", excluded)
+		ev.Note("hostile TD-HOB/TempMem memory sizes above the executable bound replaced by bounded ones, or TDX requests not executed because the image declares such a size, in %d draws (recorded finding class C08/tdx/*-size-unbounded)", excluded)
 	}()
 	rapid.Check(t, func(t *rapid.T) {
-		o := fwgen.Options{MinPages: 1, MaxPages: 8, WantSev: true, WantTdx: true, MaxSevSections: 6, MaxTempMem: 3, Excluded: &excluded}
-		if ev.Tier() != "thorough" || !unboundedSizes {
-			// TD-HOB/TempMem memory sizes beyond 64 MiB belong to a recorded finding whose cases end in
-			// out-of-memory deaths and CPU watchdog expiries (40 s each): excluded by construction,
-			// counted, and replayed explicitly by TestRegressions.
-			o.MaxTdxPrivateSize = 64 << 20
-		}
-		img, muts, l := fwgen.GenHostile(t, o)
 		r := genReq(t)
-		bigKind, largest := tdxBigSection(img)
-		if largest > 64<<20 && !unboundedSizes {
-			// the image itself (e.g. a hostile section count that makes the parser read records from the
-			// image body) declares a private memory size of the recorded finding class whose cases end in
-			// out-of-memory deaths or watchdog expiries: not executed, counted
+		img, muts, details, l := genHostile(t, hostileOptsFor(r, 8))
+		c := costOf(r, img)
+		if c.inKnownTerritory() && !unbounded() {
+			// only requests that take the TDX path are affected; every other entry point runs
 			excluded++
 			ev.Case(name, false, "", "excluded:known-finding-class", nil)
 			return
 		}
-		res := isolate.RunConfirmed("fw", encode(r, img), uint64(baseBudget)+perByte*uint64(len(img)), 20000)
-		what := fmt.Sprintf("hostile image (%d bytes, planted %v, sev sections %+v ov %s, tdx sections %+v) opts %+v", len(img), muts, l.Sev, ovStr(l.Ov), l.Tdx, r)
-		if !verdict(t, r, img, res, bigKind, what) {
+		res := isolate.RunConfirmed("fw", encode(r, img), allocLimit(r, img), cpuBaseMs)
+		what := fmt.Sprintf("hostile image (%d bytes, planted %v %v, sev sections %+v ov %s, tdx sections %+v) opts %+v", len(img), muts, details, l.Sev, ovStr(l.Ov), l.Tdx, r)
+		if !verdict(t, name, r, img, res, what) {
 			return
 		}
 		if res.CPUms > 1000 {
@@ -348,13 +518,50 @@ func TestHostileImages(t *testing.T) {
 		if res.Outcome == "panic" || res.Outcome == "died" || res.Outcome == "timeout" {
 			cls = "known-finding:" + res.Outcome
 		}
-		ev.Case(name, tableFooterValid(img), r.Entry+"|"+strings.Join(muts, ",")+"|"+cls, r.Entry+"/"+short(cls), func() any {
-			return map[string]any{"entry": r.Entry, "image_bytes": len(img), "planted": muts, "outcome": res.Outcome, "class": cls, "alloc": res.Alloc, "cpu_ms": res.CPUms}
+		nontrivial := tableFooterValid(img) && readsImage(r) && relevant(r, muts)
+		ev.Case(name, nontrivial, r.Entry+"|"+strings.Join(muts, ",")+"|"+cls, r.Entry+"/"+short(cls), func() any {
+			return map[string]any{"entry": r.Entry, "image_bytes": len(img), "planted": muts, "details": details, "outcome": res.Outcome, "class": cls, "alloc": res.Alloc, "cpu_ms": res.CPUms}
 		})
 		for _, m := range muts {
 			ev.Class(name, "planted:"+m)
 		}
+		shapeClasses(name, r, c, nontrivial)
 	})
+}
+
+// shapeClasses exposes the request/size shapes that matter in the evidence.
+func shapeClasses(name string, r req, c tdxCost, nontrivial bool) {
+	if !nontrivial {
+		ev.Class(name, "trivial/"+r.Entry)
+	}
+	if techOf(r.Entry) == "tdx" {
+		if r.Entry != "tdx.UnsignedTDX" {
+			ev.Class(name, fmt.Sprintf("tdx-mode/%d", r.Mode))
+		}
+		sz := func(label string, v uint64) {
+			switch {
+			case v == 0:
+			case v <= 64<<10:
+				ev.Class(name, label+"<=64KiB")
+			case v <= 1<<20:
+				ev.Class(name, label+"(64KiB,1MiB]")
+			case v <= 64<<20:
+				ev.Class(name, label+"(1MiB,64MiB]")
+			case v < 1<<32:
+				ev.Class(name, label+"(64MiB,4GiB)")
+			default:
+				ev.Class(name, label+">=4GiB")
+			}
+		}
+		if c.loopDefault >= 1<<32 {
+			ev.Class(name, "default-walk>=4GiB")
+		}
+		if c.runsDefault > 0 && c.runsAll == 0 && c.temp > 64<<10 {
+			ev.Class(name, "default-mode-tempmem>64KiB")
+		}
+		sz("declared-td-hob:", c.hob)
+		sz("declared-tempmem:", c.temp)
+	}
 }
 
 func short(s string) string {
@@ -391,12 +598,13 @@ func ovStr(o fwgen.Overrides) string {
 
 func TestRandomBytes(t *testing.T) {
 	const name = "hostile/random-bytes"
-	ev.Rule(name, "byte strings of length 0..70000: arbitrary bytes, arbitrary bytes with a valid GUID-table footer appended, and the repository's example firmware with a drawn window overwritten by arbitrary bytes; same options and oracle; non-trivial = footer valid; distinct = (entry, length bucket, outcome class)")
+	ev.Rule(name, "byte strings of length 0..70000: arbitrary bytes; arbitrary bytes with a valid GUID-table footer appended; the repository's example firmware with a drawn window overwritten by arbitrary bytes; a generated valid SEV+TDX image (1-4 pages) with a drawn window overwritten by arbitrary bytes (inside a metadata structure or the GUID table half of the time); same options and oracle; non-trivial = footer valid and the request reads the image; distinct = (entry, length bucket, outcome class)")
 	checks(ev.Scale(1200, 12000))
 	base := fakeovmf.CleanExample(t, 0x10000)
 	rapid.Check(t, func(t *rapid.T) {
 		var img []byte
-		switch rapid.IntRange(0, 2).Draw(t, "kind") {
+		kind := rapid.SampledFrom([]int{0, 1, 1, 2, 2, 3, 3, 3}).Draw(t, "kind")
+		switch kind {
 		case 0:
 			n := rapid.SampledFrom([]int{0, 1, 17, 18, 31, 32, 49, 50, 51, 64, 4095, 4096, 4097, 8192, 70000}).Draw(t, "len")
 			img = make([]byte, n)
@@ -411,20 +619,37 @@ func TestRandomBytes(t *testing.T) {
 			s.FooterSizeOverride = &sz
 			img = s.Build()
 			copy(img[len(img)-0x20-18-len(body):], body)
-		default:
+		case 2:
 			img = append([]byte(nil), base...)
 			off := rapid.IntRange(0, len(img)-1).Draw(t, "off")
 			w := rapid.SliceOfN(rapid.Byte(), 1, 64).Draw(t, "w")
 			copy(img[off:], w)
+		default:
+			l := fwgen.GenValid(t, fwgen.Options{MinPages: 1, MaxPages: 4, WantSev: true, WantTdx: true, MaxSevSections: 6, MaxTempMem: 3})
+			img = l.Spec.Build()
+			var off int
+			switch rapid.IntRange(0, 3).Draw(t, "where") {
+			case 0:
+				off = l.SevMetaPos + rapid.IntRange(0, 16+12*len(l.Sev)).Draw(t, "in")
+			case 1:
+				off = l.TdxMetaPos + rapid.IntRange(0, 32+32*len(l.Tdx)).Draw(t, "in")
+			default:
+				off = rapid.IntRange(0, len(img)-1).Draw(t, "off")
+			}
+			w := rapid.SliceOfN(rapid.Byte(), 1, 16).Draw(t, "w")
+			if off < len(img) {
+				copy(img[off:], w)
+			}
 		}
 		r := genReq(t)
-		bigKind, largest := tdxBigSection(img)
-		if largest > 64<<20 && !unboundedSizes {
+		c := costOf(r, img)
+		if c.inKnownTerritory() && !unbounded() {
 			excluded++
+			ev.Case(name, false, "", "excluded:known-finding-class", nil)
 			return
 		}
-		res := isolate.RunConfirmed("fw", encode(r, img), uint64(baseBudget)+perByte*uint64(len(img)), 20000)
-		if !verdict(t, r, img, res, bigKind, fmt.Sprintf("random image (%d bytes) opts %+v", len(img), r)) {
+		res := isolate.RunConfirmed("fw", encode(r, img), allocLimit(r, img), cpuBaseMs)
+		if !verdict(t, name, r, img, res, fmt.Sprintf("random image (%d bytes, kind %d) opts %+v", len(img), kind, r)) {
 			return
 		}
 		lb := "<=64"
@@ -434,63 +659,85 @@ func TestRandomBytes(t *testing.T) {
 		case len(img) > 64:
 			lb = "65-4096"
 		}
-		ev.Case(name, tableFooterValid(img), r.Entry+"|"+lb+"|"+res.Class, r.Entry+"/"+short(res.Class), func() any {
+		ev.Case(name, tableFooterValid(img) && readsImage(r), r.Entry+"|"+lb+"|"+res.Class, r.Entry+"/"+short(res.Class), func() any {
 			return map[string]any{"entry": r.Entry, "image_bytes": len(img), "outcome": res.Outcome, "class": res.Class}
 		})
+		ev.Class(name, fmt.Sprintf("kind/%d", kind))
 	})
 }
 
-// Plain regression replays of confirmed findings (bypass generation).
+func regressionImage(mod func(l *fwgen.Layout)) []byte {
+	l := &fwgen.Layout{Spec: &fwgen.Spec{Size: 0x2000, BodySeed: 3}, HasReset: true, ResetAddr: 0xff0000ff, HasSev: true, HasTdx: true}
+	l.Sev = []fwgen.SevSection{{Address: 0x801000, Length: 0x1000, Kind: 1}, {Address: 0x803000, Length: 0x1000, Kind: 3}, {Address: 0x804000, Length: 0x1000, Kind: 2}}
+	l.Tdx = []fwgen.TdxSection{{DataOffset: 0, DataSize: 0x2000, MemoryBase: 0xffffe000, MemorySize: 0x2000, Type: 0, Attributes: 1}, {MemoryBase: 0x809000, MemorySize: 0x2000, Type: 2}, {MemoryBase: 0x810000, MemorySize: 0x4000, Type: 3}}
+	if mod != nil {
+		mod(l)
+	}
+	sev := fwgen.SevMetadataBytes(l.Sev, l.Ov.SevLen, l.Ov.SevCount, l.Ov.SevSig)
+	tdxm := fwgen.TdxMetadataBytes(l.Tdx, l.Ov.TdxLen, l.Ov.TdxCount, l.Ov.TdxSig, l.Ov.TdxVersion)
+	l.Spec.Blobs = []fwgen.Blob{{Offset: 0x100, Data: sev}, {Offset: 0x400, Data: tdxm}}
+	so, to := uint32(0x2000-0x100), uint32(0x2000-0x410)
+	if l.Ov.SevOffset != nil {
+		so = *l.Ov.SevOffset
+	}
+	if l.Ov.TdxOffset != nil {
+		to = *l.Ov.TdxOffset
+	}
+	l.Spec.Entries = []fwgen.Entry{{GUID: fwgen.SevEsResetGUID, Data: fwgen.U32(l.ResetAddr)}, {GUID: fwgen.SevMetaOffsetGUID, Data: fwgen.U32(so)}, {GUID: fwgen.TdxMetaOffsetGUID, Data: fwgen.U32(to)}}
+	return l.Spec.Build()
+}
+
+// Plain replays (bypass generation): confirmed findings, the recorded finding's cases, and one
+// hand-written case per boundary family of the structured generator.
 func TestRegressions(t *testing.T) {
 	const name = "regression"
-	ev.Rule(name, "hand-written replays of confirmed findings: SEV metadata offset below the header size, SEV section count wrapping count*12+16, TDVF section count wrapping count*32, TD-HOB/TempMem sizes; all non-trivial")
+	ev.Rule(name, "hand-written replays: SEV metadata offset below the header size, SEV section count wrapping count*12+16, TDVF section count wrapping count*32, TD-HOB/TempMem sizes (recorded finding), and one case per image-relative boundary family (TDX offset within 16 of the image length on either side, SEV offset just above the image length, TempMem with the EXTEND attribute in default mode, TempMem of 64 MiB and of 4 GiB in the page-counting modes); same oracle; all non-trivial")
 	u32 := func(v uint32) *uint32 { return &v }
-	mk := func(mod func(l *fwgen.Layout)) []byte {
-		l := &fwgen.Layout{Spec: &fwgen.Spec{Size: 0x2000, BodySeed: 3}, HasReset: true, ResetAddr: 0xff0000ff, HasSev: true, HasTdx: true}
-		l.Sev = []fwgen.SevSection{{Address: 0x801000, Length: 0x1000, Kind: 1}, {Address: 0x803000, Length: 0x1000, Kind: 3}, {Address: 0x804000, Length: 0x1000, Kind: 2}}
-		l.Tdx = []fwgen.TdxSection{{DataOffset: 0, DataSize: 0x2000, MemoryBase: 0xffffe000, MemorySize: 0x2000, Type: 0, Attributes: 1}, {MemoryBase: 0x809000, MemorySize: 0x2000, Type: 2}, {MemoryBase: 0x810000, MemorySize: 0x4000, Type: 3}}
-		mod(l)
-		sev := fwgen.SevMetadataBytes(l.Sev, l.Ov.SevLen, l.Ov.SevCount, l.Ov.SevSig)
-		tdxm := fwgen.TdxMetadataBytes(l.Tdx, l.Ov.TdxLen, l.Ov.TdxCount, l.Ov.TdxSig, l.Ov.TdxVersion)
-		l.Spec.Blobs = []fwgen.Blob{{Offset: 0x100, Data: sev}, {Offset: 0x400, Data: tdxm}}
-		so, to := uint32(0x2000-0x100), uint32(0x2000-0x410)
-		if l.Ov.SevOffset != nil {
-			so = *l.Ov.SevOffset
-		}
-		if l.Ov.TdxOffset != nil {
-			to = *l.Ov.TdxOffset
-		}
-		l.Spec.Entries = []fwgen.Entry{{GUID: fwgen.SevEsResetGUID, Data: fwgen.U32(l.ResetAddr)}, {GUID: fwgen.SevMetaOffsetGUID, Data: fwgen.U32(so)}, {GUID: fwgen.TdxMetaOffsetGUID, Data: fwgen.U32(to)}}
-		return l.Spec.Build()
-	}
+	mk := func(mod func(l *fwgen.Layout)) []byte { return regressionImage(mod) }
 	cases := []struct {
 		label string
 		r     req
 		img   []byte
-		big   string
 	}{
-		{"baseline-valid", req{Entry: "sev.LaunchDigest", Vcpus: 1, Product: 1}, mk(func(l *fwgen.Layout) {}), ""},
-		{"baseline-valid-tdx", req{Entry: "tdx.MRTD", Mode: 1}, mk(func(l *fwgen.Layout) {}), ""},
-		{"sev-offset-4", req{Entry: "sev.LaunchDigest", Vcpus: 1, Product: 1}, mk(func(l *fwgen.Layout) { l.Ov.SevOffset = u32(4) }), ""},
-		{"sev-offset-0", req{Entry: "ovmf.SevData"}, mk(func(l *fwgen.Layout) { l.Ov.SevOffset = u32(0) }), ""},
-		{"sev-count-wrap", req{Entry: "sev.LaunchDigest", Vcpus: 1, Product: 1}, mk(func(l *fwgen.Layout) { l.Ov.SevCount = u32(0x15555556); l.Ov.SevLen = u32(24) }), ""},
-		{"tdx-count-wrap", req{Entry: "tdx.MRTD"}, mk(func(l *fwgen.Layout) { l.Ov.TdxCount = u32(0x08000001); l.Ov.TdxLen = u32(48) }), ""},
-		{"tdx-count-wrap-regions", req{Entry: "ovmf.Regions", Mode: 1}, mk(func(l *fwgen.Layout) { l.Ov.TdxCount = u32(0x08000000); l.Ov.TdxLen = u32(16) }), ""},
+		{"baseline-valid", req{Entry: "sev.LaunchDigest", Vcpus: 1, Product: 1}, mk(nil)},
+		{"baseline-valid-tdx", req{Entry: "tdx.MRTD", Mode: 1}, mk(nil)},
+		{"sev-offset-4", req{Entry: "sev.LaunchDigest", Vcpus: 1, Product: 1}, mk(func(l *fwgen.Layout) { l.Ov.SevOffset = u32(4) })},
+		{"sev-offset-0", req{Entry: "ovmf.SevData"}, mk(func(l *fwgen.Layout) { l.Ov.SevOffset = u32(0) })},
+		{"sev-count-wrap", req{Entry: "sev.LaunchDigest", Vcpus: 1, Product: 1}, mk(func(l *fwgen.Layout) { l.Ov.SevCount = u32(0x15555556); l.Ov.SevLen = u32(24) })},
+		{"tdx-count-wrap", req{Entry: "tdx.MRTD"}, mk(func(l *fwgen.Layout) { l.Ov.TdxCount = u32(0x08000001); l.Ov.TdxLen = u32(48) })},
+		{"tdx-count-wrap-regions", req{Entry: "ovmf.Regions", Mode: 1}, mk(func(l *fwgen.Layout) { l.Ov.TdxCount = u32(0x08000000); l.Ov.TdxLen = u32(16) })},
+		// image-relative boundaries
+		{"tdx-offset-len-8", req{Entry: "tdx.MRTD"}, mk(func(l *fwgen.Layout) { l.Ov.TdxOffset = u32(0x2000 - 8) })},
+		{"tdx-offset-len-16", req{Entry: "tdx.MRTD"}, mk(func(l *fwgen.Layout) { l.Ov.TdxOffset = u32(0x2000 - 16) })},
+		{"tdx-offset-len", req{Entry: "ovmf.Regions"}, mk(func(l *fwgen.Layout) { l.Ov.TdxOffset = u32(0x2000) })},
+		{"tdx-offset-len+1", req{Entry: "tdx.UnsignedTDX"}, mk(func(l *fwgen.Layout) { l.Ov.TdxOffset = u32(0x2001) })},
+		{"sev-offset-len+1", req{Entry: "sev.LaunchDigest", Vcpus: 1, Product: 1}, mk(func(l *fwgen.Layout) { l.Ov.SevOffset = u32(0x2001) })},
+		{"sev-offset-len+16", req{Entry: "ovmf.SevData"}, mk(func(l *fwgen.Layout) { l.Ov.SevOffset = u32(0x2010) })},
+		// measurement-loop rejection paths and the page-counting walk
+		{"tempmem-extend-default", req{Entry: "tdx.MRTD"}, mk(func(l *fwgen.Layout) { l.Tdx[2].Attributes = 1 })},
+		{"tempmem-extend-unsigned", req{Entry: "tdx.UnsignedTDX", Shapes: []string{"c3-standard-4"}}, mk(func(l *fwgen.Layout) { l.Tdx[2].Attributes = 1 })},
+		{"tempmem-64MiB-default-regions", req{Entry: "ovmf.Regions"}, mk(func(l *fwgen.Layout) { l.Tdx[2].MemoryBase, l.Tdx[2].MemorySize = 0x20000000, 64<<20 })},
+		{"tempmem-64MiB-default-mrtd", req{Entry: "tdx.MRTD"}, mk(func(l *fwgen.Layout) { l.Tdx[2].MemoryBase, l.Tdx[2].MemorySize = 0x20000000, 64<<20 })},
+		{"tempmem-4GiB-default-mrtd", req{Entry: "tdx.MRTD"}, mk(func(l *fwgen.Layout) { l.Tdx[2].MemoryBase, l.Tdx[2].MemorySize = 0x200000000, 1<<32 })},
+		{"tempmem-4GiB+4KiB-default-unsigned", req{Entry: "tdx.UnsignedTDX"}, mk(func(l *fwgen.Layout) { l.Tdx[2].MemoryBase, l.Tdx[2].MemorySize = 0x200000000, 1<<32+0x1000 })},
 		// recorded findings (known_findings.json): TD-HOB / TempMem memory sizes are used unchecked
-		{"known/tempmem-64MiB-measure-all", req{Entry: "tdx.MRTD", Mode: 1}, mk(func(l *fwgen.Layout) { l.Tdx[2].MemoryBase, l.Tdx[2].MemorySize = 0x20000000, 64<<20 }), "tempmem"},
-		{"known/td-hob-64MiB", req{Entry: "ovmf.Regions", Mode: 0}, mk(func(l *fwgen.Layout) { l.Tdx[1].MemoryBase, l.Tdx[1].MemorySize = 0x10000000, 64<<20 }), "td-hob"},
-		{"known/td-hob-2^63", req{Entry: "tdx.MRTD", Mode: 0}, mk(func(l *fwgen.Layout) { l.Tdx[1].MemoryBase, l.Tdx[1].MemorySize = 1<<32, 1<<63 }), "td-hob"},
+		{"known/tempmem-64MiB-measure-all", req{Entry: "tdx.MRTD", Mode: 1}, mk(func(l *fwgen.Layout) { l.Tdx[2].MemoryBase, l.Tdx[2].MemorySize = 0x20000000, 64<<20 })},
+		{"known/td-hob-64MiB", req{Entry: "ovmf.Regions", Mode: 0}, mk(func(l *fwgen.Layout) { l.Tdx[1].MemoryBase, l.Tdx[1].MemorySize = 0x10000000, 64<<20 })},
+		{"known/td-hob-2^63", req{Entry: "tdx.MRTD", Mode: 0}, mk(func(l *fwgen.Layout) { l.Tdx[1].MemoryBase, l.Tdx[1].MemorySize = 1<<32, 1<<63 })},
 	}
 	for _, c := range cases {
-		res := isolate.RunConfirmed("fw", encode(c.r, c.img), uint64(baseBudget)+perByte*uint64(len(c.img)), 20000)
-		if !verdict(t, c.r, c.img, res, c.big, "regression case "+c.label) {
+		res := isolate.RunConfirmed("fw", encode(c.r, c.img), allocLimit(c.r, c.img), cpuBaseMs)
+		if !verdict(t, name, c.r, c.img, res, "regression case "+c.label) {
 			return
 		}
 		if strings.HasPrefix(c.label, "baseline") && res.Outcome != "ok" {
-			t.Fatalf("harness: baseline regression image is not accepted: %+v", res)
+			// the repository may legitimately tighten what it accepts; the replays built on this layout then
+			// test less than intended, which is worth a note but is not a verdict
+			ev.Class(name, "inconclusive/baseline-not-accepted")
+			ev.Note("inconclusive: regression baseline image %s is not accepted any more (%s %s); the replays derived from it may stop early", c.label, res.Outcome, res.Msg)
 		}
 		ev.Case(name, true, c.label, c.label, func() any {
-			return map[string]any{"case": c.label, "outcome": res.Outcome, "class": res.Class, "alloc": res.Alloc}
+			return map[string]any{"case": c.label, "outcome": res.Outcome, "class": res.Class, "alloc": res.Alloc, "cpu_ms": res.CPUms}
 		})
 	}
 }
